@@ -165,6 +165,27 @@ pub fn table() -> Vec<(&'static str, BuildFn)> {
             let r: Result<P, P> = Err(p);
             (fin(mc, "Result::Err", r, &ps[..ps.len().min(1)], errs), ps.len().min(1))
         }),
+        ("Result mixed", |mc, ps, s, errs| {
+            let p = ps.first().copied().unwrap_or(P::N(0));
+            let one = &ps[..ps.len().min(1)];
+            match s % 4 {
+                0 => (fin(mc, "Result<P, u8>::Ok", Ok::<P, u8>(p), one, errs), one.len()),
+                1 => (fin(mc, "Result<u8, P>::Err", Err::<u8, P>(p), one, errs), one.len()),
+                2 => (fin(mc, "Result<P, u8>::Err", Err::<P, u8>(3), &[], errs), 0),
+                _ => (fin(mc, "Result<u8, P>::Ok", Ok::<u8, P>(3), &[], errs), 0),
+            }
+        }),
+        ("tuple mixed", |mc, ps, s, errs| {
+            let (a, used) = pad::<3>(ps);
+            let u = |n: usize| &used[..used.len().min(n)];
+            match s % 5 {
+                0 => (fin(mc, "(u8, P)", (1u8, a[0]), u(1), errs), u(1).len()),
+                1 => (fin(mc, "(P, u8)", (a[0], 1u8), u(1), errs), u(1).len()),
+                2 => (fin(mc, "(u8, P, String, P)", (1u8, a[0], String::new(), a[1]), u(2), errs), u(2).len()),
+                3 => (fin(mc, "(P, (), P, u64, P)", (a[0], (), a[1], 5u64, a[2]), u(3), errs), u(3).len()),
+                _ => (fin(mc, "((u8, P), (P, u8), u8)", ((1u8, a[0]), (a[1], 2u8), 3u8), u(2), errs), u(2).len()),
+            }
+        }),
         ("array0", |mc, _ps, _s, errs| {
             let a: [P; 0] = [];
             (fin(mc, "[T; 0]", a, &[], errs), 0)
